@@ -289,6 +289,10 @@ class SymExec:
             if not self.loops:
                 self.dead = True
             return
+        if isinstance(s, ast.Raise):
+            if not self.loops:
+                self.dead = True          # the path ends here without a result
+            return
         if isinstance(s, ast.Expr):
             if isinstance(s.value, ast.Call) and self.call_hook is not None:
                 self.call_hook(s.value, self)
